@@ -39,8 +39,11 @@ TraceInit == /\ \E i \in 1..Len(Traces) :
 Silent(A) == A /\ l' = l
 MatchOps == {"tok", "pat", "opat", "dot", "const", "meta"}
 
-TLeaf == /\ Leaf
-         /\ IF TopK.e.op \in MatchOps
+TLeaf == LET isoc == TopK.e.op = "oconst" IN
+         /\ LeafW(IF isoc THEN [ok |-> EvAt(l + 1).ok, v |-> EvAt(l + 1).v] ELSE NoCv)
+         /\ IF isoc
+            THEN /\ EvAt(l).ev = "match" /\ EvAt(l + 1).ev = "const" /\ l' = l + 2        \* constant(): trace_match, then the evaluation
+            ELSE IF TopK.e.op \in MatchOps
             THEN /\ EvAt(l).ev = "match"
                  /\ EvAt(l).ok = (ret'.k = "ok")
                  /\ (TopK.e.op # "const" => EvAt(l).pos = Top(fr').pos)
